@@ -75,3 +75,7 @@ def run(ctx):
     ctx.validate("Trace_Naming", events, header={"keywords": [av.cps(k) for k in keyword.kwlist]}, shard=8000)
     ctx.notes["identifiers"] = len(xs)
     ctx.notes["explanation"] = "exhaustive enumeration of the bounded identifier space; criteria evaluated by TLC on spec/Naming.tla"
+
+
+def redrive(ev):
+    return name_event(ev["case"]["x"])
